@@ -44,10 +44,11 @@ def run(chk, tier):
     except sym.Undecided as e:
         chk.blind("VN", FN, "the summarising loop could not be summarised: %s" % e, fn.where())
         return
-    chk.ob("VN", FN, len(ls) == 1, "%d loop(s) (one expected)" % len(ls), fn.where(), key="one-loop")
-    if len(ls) != 1:
+    top = [l for l in ls if l["depth"] == 0]
+    chk.ob("VN", FN, len(top) == 1, "%d top-level loop(s) (one expected: the pass over the messages)" % len(top), fn.where(), key="one-loop")
+    if len(top) != 1:
         return
-    lp = ls[0]
+    lp = top[0]
     w = lp["where"]
     names = {fn.local_name(l): l for l in lp["tracked"]}
     if not {"summary", "current_group", "iter"} <= set(names):
